@@ -26,6 +26,12 @@ def check(run, tier):
         "policies": ["default", "public", "open", "grouped", "partial", "nosuch"],
         "weights": {"Attr": 4, "Locate": 3, "Register": 3, "Create": 2, "Get": 2, "DeriveKey": 2}})
     E.judge(run, traces, only=ONLY, name="c13")
+    # attribute operations whose NEW value equals another instance the object already has (a rename onto a sibling name,
+    # group, application information), every index, both request forms - the value dimension the grid above keeps fixed
+    from . import c08
+    sib = c08.attr_then_commit(run, quick)
+    E.judge(run, sib, only=ONLY, name="c13attr")
+    traces += sib
     E.summarise(run, traces)
     crypto_grid(run, quick)
 
